@@ -141,5 +141,5 @@ pub fn buffered(data: &[u8]) -> c14::Case {
             _ => c14::Op::NextFrames(idx(&mut u, cap + 2)),
         });
     }
-    c14::Case { cap, start, prefill, src_len, int_frames, ops, drain, tail: (data.len() % 5) as u64 }
+    c14::Case { cap, start, prefill, src_len, int_frames, ops, drain, tail: (data.len() % 5) as u64, borrowed: data.len() % 3 == 1 }
 }
